@@ -948,7 +948,7 @@ class FortranCodegen(Stringifier):
             typename = self.visit(o.dtype)
 
         selector = []
-        if o.length:
+        if o.length is not None:
             selector += [f'LEN={self.visit(o.length, **kwargs)}']
         if o.kind:
             selector += [f'KIND={self.visit(o.kind, **kwargs)}']
